@@ -61,6 +61,35 @@ INCL_STORE = {'d/a': ['kc da'], 'd/b': ['kc db'], 'd/aa': ['kc daa'], 'd/s/a': [
               'd/a/a': ['kc daa2'], 'a': ['kc ra'], 'b/a': ['kc rba'], 'd/s/s/a': ['kc dssa']}
 
 
+def _sch(body, **attrs):
+    return '<schema%s>%s</schema>' % (''.join(' %s="%s"' % kv for kv in attrs.items()), body)
+
+
+_K = lambda n: '<key name="%s"/>' % n          # noqa
+_T = lambda n: '<sectiontype name="%s"/>' % n  # noqa
+# (top schema, {path below http://m/: xml}, [expected key names, expected type names])
+SCHEMA_LAYOUTS = [
+    ('a/main.xml', {'a/main.xml': _sch(_K('kt'), extends='sub/mid.xml'),
+                    'a/sub/mid.xml': _sch(_K('km'), extends='root.xml'),
+                    'a/sub/root.xml': _sch(_K('kr')),
+                    'a/root.xml': _sch(_K('kdecoy'))}, [['km', 'kr', 'kt'], []]),
+    ('a/main.xml', {'a/main.xml': _sch(_K('kt'), extends='../b/mid.xml'),
+                    'b/mid.xml': _sch(_K('km'), extends='c/root.xml ../b/r2.xml'),
+                    'b/c/root.xml': _sch(_K('kr')), 'b/r2.xml': _sch(_K('k2')),
+                    'a/c/root.xml': _sch(_K('kdecoy')), 'b/../b/r2.xml': _sch(_K('kdecoy2'))},
+     [['k2', 'km', 'kr', 'kt'], []]),
+    ('a/main.xml', {'a/main.xml': _sch('<import src="sub/types.xml"/>' + _K('kt')),
+                    'a/sub/types.xml': _sch('<import src="deep/t2.xml"/>' + _T('ta')),
+                    'a/sub/deep/t2.xml': _sch(_T('tb')),
+                    'a/deep/t2.xml': _sch(_T('tdecoy'))}, [['kt'], ['ta', 'tb']]),
+    ('main.xml', {'main.xml': _sch(_K('kt'), extends='x/y/mid.xml'),
+                  'x/y/mid.xml': _sch('<import src="../t.xml"/>' + _K('km'), extends='../../r.xml'),
+                  'x/t.xml': _sch(_T('ta')), 'r.xml': _sch(_K('kr')),
+                  't.xml': _sch(_T('tdecoy')), 'x/y/r.xml': _sch(_K('kdecoy'))},
+     [['km', 'kr', 'kt'], ['ta']]),
+]
+
+
 class C18(Harness):
     prop = 'C18'
     domain = 'D'
@@ -109,7 +138,7 @@ class C18(Harness):
             us.append({'fn': 'urlnormalize', 'len': L, 'prefix': 'file://'})
             us.append({'fn': 'normalizeURL', 'len': L, 'prefix': 'file:/'})
             us.append({'fn': 'normalizeURL', 'len': L, 'prefix': 'http://h/a'})
-        return us + self.incl_units(tier)
+        return us + self.incl_units(tier) + self.schemaref_units(tier)
 
     # ---- %include references through the loader (instrumented urljoin / urldefrag)
     def incl_units(self, tier):
@@ -119,6 +148,9 @@ class C18(Harness):
                     (('', 2), ('a', 2), ('../', 1), ('', 3), ('a', 3), ('s/', 2), ('./', 2), ('', 4)):
                 us.append({'fn': 'include', 'where': where, 'prefix': pre, 'len': n})
         return us
+
+    def schemaref_units(self, tier):
+        return [{'fn': 'schemaref', 'layout': i, 'len': 1} for i in range(len(SCHEMA_LAYOUTS))]
 
     def preflight(self, tier):
         from .. import e2
@@ -162,6 +194,8 @@ class C18(Harness):
         concrete = isinstance(s, str)
         if fn == 'include':
             return self._include(unit, s)
+        if fn == 'schemaref':
+            return self._schemaref(unit)
 
         def defrag(u):
             i = u.find('#')
@@ -218,6 +252,24 @@ class C18(Harness):
         if r[0] == 'reject':
             return ('reject',)
         return ('crash', r[1])
+
+    def _schemaref(self, unit):
+        """schema 'extends' / '<import src>' references written inside a base or imported schema that
+        lives in another directory than the top schema (a decoy with the same relative name sits next
+        to the top schema): what the loaded schema contains tells which file was read"""
+        import ZConfig
+        top, files, _ = SCHEMA_LAYOUTS[unit['layout']]
+        store = {'http://m/' + k: v.split('\n') for k, v in files.items()}
+        with P.mem_resources(store):
+            try:
+                sch = ZConfig.loadSchema('http://m/' + top)
+            except ZConfig.ConfigurationError as e:
+                return ('reject', type(e).__name__)
+            except Exception as e:
+                return ('crash', type(e).__name__)
+        keys = sorted(k for k, info in sch if k)
+        types = sorted(t for t in sch.gettypenames())
+        return ('ok', [keys, types])
 
     def _include_expect(self, unit, arg):
         """RFC 3986 section 5.2 for a path-only reference against the includer's URL; a fragment
@@ -278,6 +330,8 @@ class C18(Harness):
         fn = unit['fn']
         if fn == 'include':
             return self._include_expect(unit, s)
+        if fn == 'schemaref':
+            return ('ok', SCHEMA_LAYOUTS[unit['layout']][2])
         if fn == 'urlnormalize':
             return ('ok', ref_urlnormalize(s))
         if fn == 'urljoin':
